@@ -70,6 +70,23 @@ CHECKS["C20"] = ("DESIGN §4 C20",
     "every part count the partitioner accepts is generated through the library's own Mesher and every invariant (single ownership, ghost layer = elements touching owned nodes, numbering kept, reproducibility, owned-row completeness of K/M/F, energy and reaction sums, Merge mapping) is checked on the real objects",
     "trusted: gmsh/METIS as environment; MPI execution itself is not available (serial emulation through the per-part meshes)")
 
+CHECKS["C01"] = ("DESIGN §4 C01",
+    "exhaustive enumeration (deviation bound 1 quick, bound 3 / full product thorough) of problem x element type x mesh x affine map x numbering x material x input form configurations, every basis linear field per configuration; all 4! (6!) node numberings of the 2-element meshes",
+    "every configuration of the stated alphabets is solved by the real pipeline; by linearity of the solve in the prescribed field the basis of linear fields decides all linear fields; closed-form oracle for interior values, strain, stress, energy, beam forces",
+    "trusted: numpy closed forms (own Kelvin-Mandel conversion, own laws in zoo/c01_ref.py); tolerance 1e-9")
+CHECKS["C04"] = ("DESIGN §4 C04",
+    "exhaustive enumeration of ALL ordered boundary-condition programs of <= 3 atoms (156) x ground support position x orphan node x resolution (elimination / Lagrange / beam connections) x mode (linear, Newton-incremental, one implicit time step) x every installed solver backend, on 4 small problems",
+    "every BC program of the bounded grammar is solved by the real code with every backend; dense numpy elimination / KKT reference; sum convention for duplicated dofs as documented in _Bc_Add_Dirichlet",
+    "trusted: numpy dense solves; petsc/pypardiso/mumps and MPI not installed and not exercised; Krylov backends held to 20x their default rtol")
+CHECKS["C16"] = ("DESIGN §4 C16",
+    "exhaustive enumeration of simulation x variant x dimension x mesh x state assignment x EVERY advertised result name x nodeValues, plus constant-field conversion on every mesh and reaction balance on solved clamped problems",
+    "every name of Results_Available() of every simulation type is queried on non-equilibrium states and compared with an independent numpy recomputation (relation table per simulation)",
+    "trusted: numpy; own strain/stress/von Mises/energy formulas; results whose definition the library does not document are compared by consistency only")
+CHECKS["C17"] = ("DESIGN §4 C17",
+    "exhaustive enumeration of 76 split configurations x strain-state letters (15 in 2D, 21 in 3D) alone, in ALL ordered pairs on the two Gauss points of one element and across two elements, 8 amplitudes for degenerate letters; explicit-state exploration (unmerged) of all load-letter sequences of length <= 3 (quick) / 4 (thorough) for 30+8 (solver, regularisation, split) configurations",
+    "every configuration and every load history up to the bound runs on the real model / staggered solver; oracles: numpy eigh positive parts, closed-form psi+, partition identities, running maximum of the reference psi+ for the history field, monotone saved damage",
+    "trusted: numpy.linalg.eigh; states with an eigenvalue gap in (1e-10, 1e-3) relative would be skipped and counted (none occur)")
+
 PENDING_REASON = "not claimed yet: the bounded-exhaustive check for this property is designed (DESIGN.md §4) but not built in the committed tree"
 
 
